@@ -71,6 +71,11 @@ func (m *Mutex) Unlock() {
 // RWMutex mirrors sync.RWMutex.
 type RWMutex struct {
 	real sync.RWMutex
+	// Lock calls of cooperative tasks that wait for the lock. sync.RWMutex lets no new reader
+	// in while a writer waits; the task scheduler takes locks with TryLock, which does not
+	// announce itself, so the shim keeps that rule itself: it is what turns a recursive read
+	// lock into a deadlock as soon as a writer arrives between the two RLock calls.
+	pendingW atomic.Int32
 }
 
 func (m *RWMutex) Lock() {
@@ -81,9 +86,11 @@ func (m *RWMutex) Lock() {
 			held.Add(1)
 			return
 		}
+		m.pendingW.Add(1)
 		for !m.real.TryLock() {
 			y("blocked")
 		}
+		m.pendingW.Add(-1)
 		held.Add(1)
 		return
 	}
@@ -105,7 +112,7 @@ func (m *RWMutex) RLock() {
 			held.Add(1)
 			return
 		}
-		for !m.real.TryRLock() {
+		for m.pendingW.Load() > 0 || !m.real.TryRLock() {
 			y("blocked")
 		}
 		held.Add(1)
